@@ -8,6 +8,8 @@ use std::collections::HashMap;
 
 #[derive(Debug, Clone, Copy, PartialEq, Eq)]
 pub enum MemClass {
+    /// target byte of a constant pointer (`char * const R = 0x..`), a "hardware register"
+    Reg,
     Zp,
     Abs,
     Split,
@@ -45,6 +47,13 @@ pub const ABS_START: u16 = 0x0200;
 pub const SPLIT_BASE: u16 = 0x1000;
 pub const ROM_START: u16 = 0x8000;
 pub const CODE_START: u16 = 0xC000;
+
+/// address areas reserved for the targets of constant pointers
+pub const REG_ZP: (u16, u16) = (0xE0, 0xFF);
+pub const REG_ABS: (u16, u16) = (0x0F00, 0x0FFF);
+pub fn is_reg_addr(a: u16) -> bool {
+    (a >= REG_ZP.0 && a <= REG_ZP.1) || (a >= REG_ABS.0 && a <= REG_ABS.1)
+}
 
 #[derive(Debug, Clone, PartialEq)]
 pub enum LayoutError {
@@ -111,6 +120,19 @@ pub fn build(cap: &Capture, scheme: &str, shuffle: u32) -> Result<Layout, Layout
                 match val {
                     Val::Int(i) => {
                         l.symbols.insert(v.name.clone(), *i as i64);
+                        if v.var_type == VariableType::CharPtr && *i >= 0 && is_reg_addr(*i as u16) {
+                            l.objects.push(Object {
+                                name: v.name.clone(),
+                                addr: *i as u16,
+                                read_addr: *i as u16,
+                                write_addr: *i as u16,
+                                bytes: 1,
+                                class: MemClass::Reg,
+                                var_type: VariableType::Char,
+                                count: 1,
+                                rom_init: None,
+                            });
+                        }
                     }
                     other => deferred.push((v.name.clone(), other.clone())),
                 }
@@ -150,7 +172,7 @@ pub fn build(cap: &Capture, scheme: &str, shuffle: u32) -> Result<Layout, Layout
             }
             (Def::None, VariableMemory::Zeropage) => {
                 zp = zp_skip(zp, n);
-                if zp as u32 + n as u32 > 0x100 {
+                if zp as u32 + n as u32 > REG_ZP.0 as u32 {
                     return Err(LayoutError::ZeroPageFull);
                 }
                 l.symbols.insert(v.name.clone(), zp as i64);
